@@ -22,7 +22,7 @@ NOT_APPLICABLE = {
     'C06': 'frequency-domain approximation-error statement about an IIR filter with exp/cos; no float semantics in Verus, CBMC libm models are non-deterministic (DESIGN.md section 6)',
     'C13': 'same as C06 plus powf and a stability claim (DESIGN.md section 6)',
 }
-for _p in ['C01', 'C04', 'C05', 'C07', 'C10', 'C11', 'C12', 'C14', 'C15', 'C16', 'C17', 'C18', 'C19']:
+for _p in ['C01', 'C05', 'C07', 'C12', 'C14', 'C15', 'C16', 'C18']:
     NOT_APPLICABLE[_p] = PENDING
 
 PROPS = {
@@ -42,7 +42,7 @@ PROPS = {
         'technique': 'Verus contracts on the extracted text of DurationEstimator::{create_with_alignment, estimate_duration_with_frame_length} and Labels::new; Kani-checked hole contracts and float lemma L3',
         'level_text': 'unbounded deductive proof (Verus/z3) that every known-end label closes a group fitted to (end - frames so far), every state gets >= 1 frame, all labels contribute all states and trailing labels fall back to model durations; round() identity (L3) by a loop-free Kani lemma',
         'level_note': 'holes (iterator chains, casts) abstracted by contracts that Kani checks on fixed sizes N<=3 (bounded); usize overflow of frame sums excluded by precondition; float operations uninterpreted in Verus',
-        'verus': ['duration'],
+        'verus': ['duration', 'labels', 'engine'],
         'assumptions': ['sums_fit / al_fc <= usize::MAX: machine-integer overflow of frame totals excluded by precondition',
                         'axiom_vec_len_bound: a Vec length is a usize'],
         'trusted_base': [],
@@ -63,6 +63,41 @@ PROPS = {
         'level_note': 'callees abstracted by uninterpreted functions of their arguments (determinism of safe Rust without interior mutability assumed)',
         'verus': ['engine'],
         'assumptions': [], 'trusted_base': [], 'not_decided': [],
+    },
+    'C19': {
+        'technique': 'Verus contracts on the extracted text of InterporationWeight setters/getters and Weights::check_length; Kani harnesses for Weights::new and VoiceSet::new',
+        'level_text': 'unbounded proof (any number of voices/streams) that an update is accepted iff sum_ok && len == nvoices, writes only the addressed vector, and leaves *self unchanged on rejection; Weights::new / VoiceSet::new bounded by Kani',
+        'level_note': 'sum_ok is tied to |sum-1| <= EPSILON by Kani for lengths 0..3 only (bounded); VoiceSet::new on 2 voices with symbolic metadata (bounded); string-valued metadata fields compared as constants',
+        'verus': ['weights'],
+        'assumptions': ['Weights::new contract (Ok => stored == input && sum_ok; Err => !sum_ok) assumed in Verus, checked by Kani for len <= 3'],
+        'trusted_base': [], 'not_decided': [],
+    },
+    'C10': {
+        'technique': 'Kani harnesses on ModelParameter::{mul, mul_add_assign} and VoiceSet::weighted over symbolic parameters with exact-scaling weight constants',
+        'level_text': 'bounded: for weight vectors from an exact-scaling constant set and ALL parameter values the blend is bit-exactly sum w_v p_v; (1,0) reproduces voice 0; identical voices reproduce the voice',
+        'level_note': 'arbitrary symbolic weights are intractable for CBMC (products of two symbolic doubles, P9): the general product formula is NOT decided; 2 voices, vector length 1-2',
+        'verus': [],
+        'assumptions': [], 'trusted_base': [],
+        'not_decided': ['general weighted-average formula for arbitrary (non-constant) weights', 'which weight vector feeds which quantity (Models::duration/stream/gv) is not yet covered'],
+    },
+    'C17': {
+        'technique': 'Verus contracts on the extracted text of Labels::new and Engine::generator',
+        'level_text': 'unbounded proof that labels given without times get (-1,-1) for every label, that length mismatch is the only error of Labels::new, and that with alignment off the time stamps do not occur in what generator() builds',
+        'level_note': 'PARTIAL: load_from_strings (line splitting, parsers, error mapping) and the four ToLabels impls are not yet under contract; jlabel and f64 parsers are outside any verifier',
+        'verus': ['labels', 'engine'],
+        'assumptions': ['axiom_pair_clone: Clone of (f64, f64) returns an equal pair'],
+        'trusted_base': [],
+        'not_decided': ['Labels::load_from_strings control flow and error mapping', 'jlabel::Label::from_str / f64::from_str never panic'],
+    },
+    'C04': {
+        'technique': 'Verus contracts on the extracted text of Tree::search_node, Model::{get_index,get_parameter}, ModelParameter::from_linear; Kani harnesses for find_tree_index and PDF row split',
+        'level_text': 'unbounded proof (any tree size / table size) that the Gaussian handed out is pdf[first tree with matching state][leaf reached by the yes/no walk - 1] and that a PDF row splits into means|variances|msd; partial correctness (termination of the walk assumed)',
+        'level_note': 'PARTIAL: question matching (jlabel-question fast path / regex) is an uninterpreted predicate; section split, header deserializer, tree text parser, convert_tree, window parsing and option loading are not under contract in this revision',
+        'verus': ['tree'],
+        'assumptions': ['Question::test is a deterministic predicate of (question, label) (uninterpreted test_spec)',
+                        'Model::find_tree_index == first tree whose state matches (Kani-checked, bounded trees <= 3)'],
+        'trusted_base': [],
+        'not_decided': ['HTS wildcard semantics of question matching', 'split_sections / header serde / window rows / tree text -> node table (parse_node, convert_tree)', 'f32 little-endian PDF block offsets in parse_model', 'options -> Condition (load_model option loop)'],
     },
     'C20': {
         'technique': 'Kani native function contracts (requires/ensures/modifies + proof_for_contract) and loop-free full-domain harnesses on Condition setters/getters',
